@@ -90,10 +90,17 @@ def build(case):
             if p and t is not None:
                 m.p1_time = Timestamp(float(t))
             # make every object's content distinct so that a swapped / copied object is visible in the snapshot
-            if hasattr(m, 'gps_time') and 'gps_time' in m.__dict__:
+            if 'gps_time' in m.__dict__:
                 m.gps_time = Timestamp(1000.0 + serial)
-            elif hasattr(m, 'system_time_ns'):
+            elif 'system_time_ns' in m.__dict__:
                 m.system_time_ns = serial
+            else:
+                for k, v in vars(m).items():
+                    if isinstance(v, np.ndarray) and v.dtype.kind == 'f' and v.size:
+                        a = v.copy()
+                        a.flat[0] = float(serial)
+                        setattr(m, k, a)
+                        break
             md.messages.append(m)
         md.num_messages = len(md.messages)
         data[cls.MESSAGE_TYPE] = md
@@ -465,12 +472,104 @@ def numpy_model(ctx, n):
     ctx.count('numpy_function_cases', len(lines))
 
 
+# ---- through DataLoader.read(time_align=...) on real files ----------------------------------------------------------
+PACKABLE = ['PoseMessage', 'GNSSInfoMessage', 'PoseAuxMessage', 'IMUOutput', 'EventNotificationMessage']
+
+
+def read_case(ctx, case, workdir, tag):
+    """Writes the messages of `case` to a log, reads it unaligned and aligned with fresh loaders, and compares the aligned
+    result with the Lean model/spec applied to the unaligned result (objects matched by content, every message is distinct)."""
+    import os
+    from fusion_engine_client.analysis.data_loader import DataLoader, TimeAlignmentMode
+    from fusion_engine_client.parsers import FusionEngineEncoder
+    rng = ctx.rng
+    data = build(case)
+    queues = [list(md.messages) for md in data.values()]
+    path = os.path.join(workdir, 'c15_%s.p1log' % tag)
+    enc = FusionEngineEncoder()
+    with open(path, 'wb') as f:
+        while any(queues):
+            q = rng.choice([q for q in queues if q])
+            f.write(enc.encode_message(q.pop(0)))
+    cls_list = [by_name(n) for n, _ in case['types']]
+    req = None if case['req'] is None else [by_name(n) for n in case['req']]
+    mode = TimeAlignmentMode.DROP if case['mode'] == 'drop' else TimeAlignmentMode.INSERT
+    try:
+        r0 = DataLoader(path).read(message_types=cls_list, show_progress=False)
+        r1 = DataLoader(path).read(message_types=cls_list, show_progress=False, time_align=mode, aligned_message_types=req)
+    except Exception as e:      # noqa
+        ctx.violation('C15/read-%s-raised' % case['mode'], 'read(time_align=...) raised %s: %s' % (type(e).__name__, e), case)
+        return None
+    if list(r0.keys()) != list(r1.keys()):
+        ctx.violation('C15/read-%s-dict-changed' % case['mode'], 'aligned read returns different keys', case)
+        return None
+    names = [r0[k].message_class.__name__ for k in r0]
+    seen = {'types': [[n, [ftime(m) if has_p1(by_name(n)) else None for m in r0[k].messages]] for n, k in zip(names, r0)],
+            'mode': case['mode'], 'req': case['req'], 'via': 'read', 'written': case['types']}
+    out = []
+    for n, k in zip(names, r0):
+        cls = by_name(n)
+        idx = {}
+        for i, m in enumerate(r0[k].messages):
+            idx.setdefault(repr(canon.canon(m)), i)
+        items = []
+        for m in r1[k].messages:
+            i = idx.get(repr(canon.canon(m)))
+            t = tkey(ftime(m)) if has_p1(cls) else 'n'
+            if i is None and has_p1(cls):
+                v = dict(vars(m))
+                v.pop('p1_time', None)
+                if type(m) is not cls or repr(canon.canon(v)) != default_snapshot(cls):
+                    ctx.violation('C15/read-%s-entry-neither-read-nor-default' % case['mode'],
+                                  '%s: an entry at %s is neither a message of the log nor default-valued' % (n, t), seen)
+                    return None
+            items.append(('o%d@%s' % (i, t)) if i is not None else ('f@%s' % t))
+        out.append('%d:%s' % (int(cls.MESSAGE_TYPE), ','.join(items)))
+    return seen, ';'.join(out)
+
+
+def run_read_cases(ctx, n):
+    import shutil
+    import tempfile
+    workdir = tempfile.mkdtemp(prefix='c15_', dir=fv.BUILD)
+    lines, pending = [], []
+    try:
+        for j in range(n):
+            case = random_case(ctx.rng)
+            case['types'] = [[nm, [None if t is None else float(abs(int(t))) for t in ts][:12]] for nm, ts in case['types'] if nm in PACKABLE]
+            if case['req'] is not None:
+                case['req'] = [nm for nm in case['req'] if nm in PACKABLE]
+            if not case['types']:
+                continue
+            res = read_case(ctx, case, workdir, str(j))
+            if res is None:
+                continue
+            seen, txt = res
+            classify(ctx, seen)
+            ctx.count('through_read_time_align')
+            lines.append(model_line('align', seen))
+            lines.append(model_line('alignspec', seen))
+            pending.append((seen, txt))
+            ctx.case('read ' + lines[-2], nontrivial=nontrivial(seen))
+    finally:
+        shutil.rmtree(workdir, ignore_errors=True)
+    outs = ctx.driver(lines)
+    for j, (seen, txt) in enumerate(pending):
+        mo, so = outs[2 * j], outs[2 * j + 1]
+        if txt != mo:
+            ctx.disagree('read(time_align) != model: impl=%s model=%s' % (txt[:300], mo[:300]), seen)
+        if txt != so:
+            ctx.violation('C15/read-%s-differs-from-spec' % seen['mode'], 'impl=%s spec=%s' % (txt[:300], so[:300]), seen)
+        ctx.cov['traces_validated_against_impl'] += 1
+
+
 def run(ctx, budget):
     cases = exhaustive(ctx) + sequences(ctx)
     ctx.count('exhaustive_grid_cases', len(cases))
     rnd = [scale_case(random_case(ctx.rng)) for _ in range(budget)]
     ctx.count('random_cases', len(rnd))
     run_cases(ctx, cases + rnd)
+    run_read_cases(ctx, 300 if ctx.thorough else 60)
     numpy_model(ctx, 3000 if ctx.thorough else 600)
 
 
@@ -513,6 +612,22 @@ def replay(ctx, path):
     case = obj['input']
     if 'numpy_line' in case:
         numpy_model(ctx, 50)
+    elif case.get('via') == 'read':
+        import shutil
+        import tempfile
+        workdir = tempfile.mkdtemp(prefix='c15_', dir=fv.BUILD)
+        try:
+            c = {'mode': case['mode'], 'req': case['req'], 'types': case['written']}
+            res = read_case(ctx, c, workdir, 'replay')
+            if res is not None:
+                seen, txt = res
+                outs = ctx.driver([model_line('align', seen), model_line('alignspec', seen)])
+                if txt != outs[0]:
+                    ctx.disagree('read(time_align) != model: impl=%s model=%s' % (txt[:300], outs[0][:300]), seen)
+                if txt != outs[1]:
+                    ctx.violation('C15/read-%s-differs-from-spec' % seen['mode'], 'impl=%s spec=%s' % (txt[:300], outs[1][:300]), seen)
+        finally:
+            shutil.rmtree(workdir, ignore_errors=True)
     else:
         run_cases(ctx, [case])
     return fv.finish(ctx, 'proof', None)
